@@ -617,6 +617,31 @@ def _sum_of_comp(t):
     return None
 
 
+def _sum_of_vector(t):
+    """(element, driving collection) when t is np.sum(V) with V an element-wise expression over the row-wise (axis=1) or
+    column-wise (axis=0) reduction of an outer difference np.subtract.outer(A, B): one summand per element of A (resp. B)"""
+    t = strip_numeric(t)
+    if not (t.op == "call" and call_name(t) in ("np.sum", "builtins.sum") and len(t.a[1]) == 1 and not dict(t.a[2]).get("axis")):
+        return None
+    V = t.a[1][0]
+    reds = []
+    for x in tm.walk(V):
+        if x.op == "call" and call_name(x) in ("np.min", "np.max", "np.amin", "np.amax") and x.a[1]:
+            ax = dict(x.a[2]).get("axis", x.a[1][1] if len(x.a[1]) > 1 else None)
+            outs = [y for y in tm.walk(x.a[1][0]) if y.op == "call" and call_name(y) == "np.subtract.outer" and len(y.a[1]) == 2]
+            if ax is not None and ax.op == "const" and len({y.id for y in outs}) == 1:
+                reds.append((x, int(ax.a[0]), outs[0]))
+    if len({r[0].id for r in reds}) != 1:
+        return None
+    red, ax, out = reds[0]
+    drv = out.a[1][0] if ax in (1, -1) else out.a[1][1]
+    el = tm.mk("iter", drv, "VEC")
+    elem = tm.rebuild(V, lambda z: el if z is red else None)
+    if any(z is red for z in tm.walk(elem)):
+        return None
+    return elem, drv
+
+
 def _outer_loop_term(t):
     """the outermost loop term of an accumulator (init may itself be threaded through loopvars)."""
     t = strip_numeric(t)
@@ -660,6 +685,8 @@ def rule_accbound(ctx):
                 hits.append((d, lt))
             elif lt is None and _sum_of_comp(d.num) is not None and not any(h[0].node is d.node for h in sums):
                 sums.append((d, _sum_of_comp(d.num)))
+            elif lt is None and _sum_of_vector(d.num) is not None and not any(h[0].node is d.node for h in sums):
+                sums.append((d, _sum_of_vector(d.num)))
         # the same accumulation written as sum(<generator>) / normaliser
         for d, (elt, it_) in sums:
             okk, uwhy = _unit_term(elt)
